@@ -357,8 +357,9 @@ def _merge_shape(fields):
     Return the shape required to hold merged fields
     """
     rmin, rmax, cmin, cmax = boundary(fields)
-    # faster than np.any([rmin, rmax, cmin, cmax])
-    if rmin == 0 and rmax == 0 and cmin == 0 and cmax == 0:
+    # scalar fields merge into a scalar; a single sample located at the
+    # origin is still a (1, 1) array
+    if all(field.data.ndim == 0 for field in fields):
         return ()
     else:
         return rmax - rmin + 1, cmax - cmin + 1
@@ -370,9 +371,8 @@ def _merge_slices(fields):
     """
     rmin, rmax, cmin, cmax = boundary(fields)
     out = []
-    # faster than np.any([rmin, rmax, cmin, cmax])
-    if rmin == 0 and rmax == 0 and cmin == 0 and cmax == 0:
-        out.append(Ellipsis)
+    if all(field.data.ndim == 0 for field in fields):
+        out.extend([Ellipsis] * len(fields))
     else:
         for field in fields:
             frmin, frmax, fcmin, fcmax = field.extent
